@@ -82,6 +82,11 @@ CORPUS = [
     dict(schema={'a': {'type': 'dict', 'empty': False, 'require_all': True, 'schema': {'b': {}, 'c': {}}}}, doc={'a': {}}, norm=False),
     dict(schema={'a': {'type': 'dict', 'empty': True, 'schema': {'b': {}}}, 'l': {'type': 'list', 'empty': True, 'schema': {'type': 'integer'}}},
          doc={'a': {}, 'l': []}, cfg={'require_all': True}, norm=False),
+    # rules whose place in the rule set must not matter: a checker written before `empty` (an empty value drops the checker)
+    dict(schema={'a': {'check_with': F.k_fail, 'empty': False, 'type': 'string'}, 'b': {'check_with': F.k_fail, 'type': 'list', 'empty': True},
+                 'c': {'check_with': [F.k_fail], 'minlength': 1, 'empty': False}, 'd': {'check_with': F.k_fail, 'regex': 'x+', 'empty': True},
+                 'e': {'type': 'dict', 'schema': {'f': {'check_with': F.k_fail, 'empty': False}}}},
+         doc={'a': '', 'b': [], 'c': '', 'd': '', 'e': {'f': []}}, norm=False),
     # keysrules (validating only) beside normalizing valuesrules
     dict(schema={'m': {'type': 'dict', 'keysrules': {'type': 'string', 'regex': '[a-z]+'},
                        'valuesrules': {'type': 'integer', 'coerce': F.c_int, 'nullable': False, 'default': 0}}},
